@@ -3,7 +3,7 @@
 TLC checks the processOHP branch of RouterStep.tla on the complete table of one-hop packets
 (construction-direction flag x first-hop egress interface incl. 0 / unknown / sibling-owned / down x
 MAC valid or not x SrcIA / DstIA in {local, far, three neighbours} x host / sibling / external
-ingress); invariant InvC12 = C12Key of RouterStepOps.tla.  The whole table (passed and near misses)
+ingress); invariant InvC12 = C12Key of RouterStepOps.tla.  The whole table (every abstract packet)
 is executed on the real router.  In addition real one-hop journeys are run: local host -> this
 router -> a second REAL router of the neighbour AS (own key) which completes the path; the completed
 second hop is re-verified with the harness's own AES-CMAC under the neighbour's key, the path is
